@@ -12,7 +12,6 @@ import (
 	"os/exec"
 	"path/filepath"
 	"runtime"
-	"sort"
 	"strconv"
 	"strings"
 	"sync"
@@ -21,7 +20,17 @@ import (
 	"verif/sim/core"
 )
 
+type partCfg struct {
+	Key       string // world key in the worker (e.g. C17a)
+	Pkg       string
+	Race      bool
+	Overlay   bool
+	QuickRuns int64
+	ThorRuns  int64
+}
+
 type propCfg struct {
+	Parts       []partCfg
 	Pkg         string // worlds | worldcat
 	Race        bool
 	Overlay     bool
@@ -99,10 +108,14 @@ func main() {
 		if cfg == nil {
 			fatal2("unknown property %s", os.Args[2])
 		}
-		bin := build(tmp, cfg)
-		d := determinism(tmp, bin, os.Args[2], cfg, seedFromEnv(), n)
-		fmt.Printf("determinism %s: seeds=%d processes=%d identical=%v %s\n", os.Args[2], d.Seeds, d.Processes, d.Identical, d.Note)
-		if !d.Identical {
+		ok := true
+		for _, part := range partsOf(os.Args[2], cfg) {
+			bin := build(tmp, part.asCfg())
+			d := determinism(tmp, bin, part.Key, part.asCfg(), seedFromEnv(), n)
+			fmt.Printf("determinism %s: seeds=%d processes=%d identical=%v %s\n", part.Key, d.Seeds, d.Processes, d.Identical, d.Note)
+			ok = ok && d.Identical
+		}
+		if !ok {
 			os.Exit(2)
 		}
 	default:
@@ -253,6 +266,24 @@ func workers() int {
 	return n
 }
 
+// partsOf returns the parts of a property (a single implicit part for most).
+func partsOf(id string, cfg *propCfg) []partCfg {
+	if len(cfg.Parts) > 0 {
+		return cfg.Parts
+	}
+	return []partCfg{{Key: id, Pkg: cfg.Pkg, Race: cfg.Race, Overlay: cfg.Overlay, QuickRuns: cfg.QuickRuns, ThorRuns: cfg.ThorRuns}}
+}
+
+func (p partCfg) asCfg() *propCfg {
+	return &propCfg{Pkg: p.Pkg, Race: p.Race, Overlay: p.Overlay}
+}
+
+type partFound struct {
+	core.Found
+	part partCfg
+	bin  string
+}
+
 func check(id, tier string) int {
 	start := time.Now()
 	if t := os.Getenv("VERIF_TIER"); t != "" && (t == "quick" || t == "thorough") {
@@ -269,70 +300,88 @@ func check(id, tier string) int {
 	fmt.Printf("verif: property=%s tier=%s VERIF_SEED=%d\n", id, tier, seed)
 	tmp := mkTmp()
 	defer os.RemoveAll(tmp)
-	bin := build(tmp, cfg)
 
-	runs, capS := cfg.QuickRuns, cfg.QuickCapS
+	capS := cfg.QuickCapS
 	if tier == "thorough" {
-		runs, capS = cfg.ThorRuns, cfg.ThorCapS
+		capS = cfg.ThorCapS
 	}
-	if v := os.Getenv("VERIF_RUNS"); v != "" {
-		if x, err := strconv.ParseInt(v, 10, 64); err == nil {
-			runs = x
-		}
-	}
-	nw := workers()
-	if int64(nw) > runs {
-		nw = int(runs)
-	}
-	deadline := time.Now().Add(time.Duration(capS) * time.Second)
-	outs := make([]workerOut, nw)
-	var wg sync.WaitGroup
-	for w := 0; w < nw; w++ {
-		wg.Add(1)
-		go func(w int) {
-			defer wg.Done()
-			job := core.Job{Property: id, Tier: tier, Mode: "explore", Seed: seed, From: int64(w), To: runs, Stride: int64(nw),
-				Deadline: deadline.Unix(), Worker: w}
-			outs[w] = runWorker(tmp, bin, job, cfg, time.Duration(capS)*time.Second+5*time.Minute)
-		}(w)
-	}
-	wg.Wait()
-
-	// merge
 	total := core.NewStats()
 	fps := map[uint64]struct{}{}
-	var found []core.Found
+	var found []partFound
 	capHit := false
-	var raceSeeds []string
-	for w, o := range outs {
-		if cfg.Race && o.code == 66 {
-			raceSeeds = append(raceSeeds, fmt.Sprintf("worker %d", w))
-			found = append(found, raceFound(tmp, bin, id, tier, cfg, seed, w, nw, runs, o)...)
-			if o.res == nil {
-				continue
+	var det *detResult
+	nwUsed := 0
+	parts := partsOf(id, cfg)
+	for _, part := range parts {
+		pcfg := part.asCfg()
+		bin := build(tmp, pcfg)
+		runs := part.QuickRuns
+		if tier == "thorough" {
+			runs = part.ThorRuns
+		}
+		if v := os.Getenv("VERIF_RUNS"); v != "" {
+			if x, err := strconv.ParseInt(v, 10, 64); err == nil {
+				runs = x
 			}
 		}
-		if o.res == nil {
-			fatal2("worker %d produced no result: %v\n%s", w, o.err, tail(o.stderr, 4000))
+		nw := workers()
+		if int64(nw) > runs {
+			nw = int(runs)
 		}
-		if o.res.Error != "" {
-			fatal2("worker %d: %s", w, o.res.Error)
+		nwUsed = nw
+		deadline := time.Now().Add(time.Duration(capS) * time.Second)
+		outs := make([]workerOut, nw)
+		var wg sync.WaitGroup
+		for w := 0; w < nw; w++ {
+			wg.Add(1)
+			go func(w int) {
+				defer wg.Done()
+				job := core.Job{Property: part.Key, Tier: tier, Mode: "explore", Seed: seed, From: int64(w), To: runs, Stride: int64(nw),
+					Deadline: deadline.Unix(), Worker: w}
+				outs[w] = runWorker(tmp, bin, job, pcfg, time.Duration(capS)*time.Second+5*time.Minute)
+			}(w)
 		}
-		mergeStats(total, o.res.Stats)
-		for _, f := range o.res.Fingerprints {
-			fps[f] = struct{}{}
+		wg.Wait()
+		prefix := ""
+		if len(parts) > 1 {
+			prefix = part.Key + ":"
 		}
-		found = append(found, o.res.Found...)
-		capHit = capHit || o.res.CapHit
-	}
-
-	// thorough tier: determinism self-test of this world
-	var det *detResult
-	if tier == "thorough" || os.Getenv("VERIF_DETERMINISM") == "1" {
-		d := determinism(tmp, bin, id, cfg, seed, 40)
-		det = &d
-		if !d.Identical {
-			fatal2("determinism self-test failed for %s: %s", id, d.Note)
+		for w, o := range outs {
+			if part.Race && o.code == 66 {
+				for _, f := range raceFound(tmp, bin, part, tier, seed, o) {
+					found = append(found, partFound{Found: f, part: part, bin: bin})
+				}
+				if o.res == nil {
+					continue
+				}
+			}
+			if o.res == nil {
+				fatal2("%s worker %d produced no result: %v\n%s", part.Key, w, o.err, tail(o.stderr, 4000))
+			}
+			if o.res.Error != "" {
+				fatal2("%s worker %d: %s", part.Key, w, o.res.Error)
+			}
+			mergeStatsPrefixed(total, o.res.Stats, prefix)
+			for _, f := range o.res.Fingerprints {
+				fps[f] = struct{}{}
+			}
+			for _, f := range o.res.Found {
+				found = append(found, partFound{Found: f, part: part, bin: bin})
+			}
+			capHit = capHit || o.res.CapHit
+		}
+		// thorough tier: determinism self-test of this world
+		if tier == "thorough" || os.Getenv("VERIF_DETERMINISM") == "1" {
+			d := determinism(tmp, bin, part.Key, pcfg, seed, 40)
+			if !d.Identical {
+				fatal2("determinism self-test failed for %s: %s", part.Key, d.Note)
+			}
+			if det == nil {
+				det = &d
+			} else {
+				det.Seeds += d.Seeds
+				det.Processes += d.Processes
+			}
 		}
 	}
 
@@ -342,7 +391,8 @@ func check(id, tier string) int {
 	seen := map[string]bool{}
 	nViol := 0
 	var lines []string
-	for _, f := range found {
+	for _, pf := range found {
+		f := pf.Found
 		if f.Clause == "harness-panic" {
 			fatal2("harness failure in run %d: %s", f.Run, f.Detail)
 		}
@@ -363,10 +413,10 @@ func check(id, tier string) int {
 			continue
 		}
 		nViol++
-		path := writeReplay(id, f)
+		path := writeReplay(id, pf.part.Key, f)
 		// confirm in a fresh process
 		if f.Clause != "data-race" {
-			ro := runWorker(tmp, bin, core.Job{Property: id, Tier: tier, Mode: "replay", Replay: path, Worker: 99}, cfg, 10*time.Minute)
+			ro := runWorker(tmp, pf.bin, core.Job{Property: pf.part.Key, Tier: tier, Mode: "replay", Replay: path, Worker: 99}, pf.part.asCfg(), 10*time.Minute)
 			if ro.res == nil || ro.res.Error != "" {
 				fatal2("replay of %s failed to run: %v %s", path, ro.err, tail(ro.stderr, 2000))
 			}
@@ -384,19 +434,52 @@ func check(id, tier string) int {
 		lines = append(lines, fmt.Sprintf("VIOLATION property=%s replay=%s", id, path))
 		exit = 1
 	}
-	sort.SliceStable(lines, func(i, j int) bool { return false })
 	for _, l := range lines {
 		fmt.Println(l)
 	}
 
 	wall := time.Since(start).Seconds()
-	writeEvidence(id, tier, seed, cfg, total, len(fps), nViol, wall, capHit, det, nw)
+	writeEvidence(id, tier, seed, cfg, total, len(fps), nViol, wall, capHit, det, nwUsed)
 	fmt.Printf("verif: property=%s tier=%s runs=%d evaluations=%d distinct=%d violations=%d wall=%.1fs cap_hit=%v\n",
 		id, tier, total.Runs, total.Evaluations, len(fps), nViol, wall, capHit)
 	if total.Runs == 0 {
 		fatal2("no runs executed")
 	}
 	return exit
+}
+
+func mergeStatsPrefixed(dst, src *core.Stats, prefix string) {
+	if src == nil {
+		return
+	}
+	if prefix == "" {
+		mergeStats(dst, src)
+		return
+	}
+	tmp := core.NewStats()
+	mergeStats(tmp, src)
+	dst.Runs += tmp.Runs
+	dst.Evaluations += tmp.Evaluations
+	dst.SimTimeNs += tmp.SimTimeNs
+	for k, v := range tmp.Faults {
+		dst.Faults[prefix+k] += v
+	}
+	for k, v := range tmp.Regions {
+		dst.Regions[prefix+k] += v
+	}
+	for k, v := range tmp.Probes {
+		dst.Probes[prefix+k] += v
+	}
+	for k, v := range tmp.Reach {
+		dst.Reach[prefix+k] += v
+	}
+	n := 0
+	for _, s := range tmp.Samples {
+		if n < 2 && len(dst.Samples) < 4 {
+			dst.Samples = append(dst.Samples, s)
+			n++
+		}
+	}
 }
 
 func tail(s string, n int) string {
@@ -445,8 +528,8 @@ func repoRev() string {
 	return rev
 }
 
-func writeReplay(id string, f core.Found) string {
-	rf := core.ReplayFile{Property: id, Clause: f.Clause, Key: f.Key, Seed: f.Seed, Run: f.Run, Detail: f.Detail,
+func writeReplay(id, world string, f core.Found) string {
+	rf := core.ReplayFile{Property: id, World: world, Clause: f.Clause, Key: f.Key, Seed: f.Seed, Run: f.Run, Detail: f.Detail,
 		Scenario: f.Scenario, From: f.FromSize, To: f.ToSize, CodeRev: repoRev()}
 	b, _ := json.MarshalIndent(rf, "", " ")
 	h := sha1.Sum(append([]byte(f.Clause+"|"+f.Key+"|"), f.Scenario...))
@@ -472,14 +555,28 @@ func replay(path string) int {
 	if cfg == nil {
 		fatal2("unknown property %s", rf.Property)
 	}
+	world := rf.World
+	if world == "" {
+		world = rf.Property
+	}
+	var part *partCfg
+	for _, p := range partsOf(rf.Property, cfg) {
+		if p.Key == world {
+			pp := p
+			part = &pp
+		}
+	}
+	if part == nil {
+		fatal2("unknown world %s of property %s", world, rf.Property)
+	}
 	tmp := mkTmp()
 	defer os.RemoveAll(tmp)
-	bin := build(tmp, cfg)
+	bin := build(tmp, part.asCfg())
 	abs, _ := filepath.Abs(path)
 	if rf.Clause == "data-race" {
-		return replayRace(tmp, bin, cfg, rf, abs)
+		return replayRace(tmp, bin, *part, rf, abs)
 	}
-	ro := runWorker(tmp, bin, core.Job{Property: rf.Property, Tier: "quick", Mode: "replay", Replay: abs, Worker: 99}, cfg, 10*time.Minute)
+	ro := runWorker(tmp, bin, core.Job{Property: world, Tier: "quick", Mode: "replay", Replay: abs, Worker: 99}, part.asCfg(), 10*time.Minute)
 	if ro.res == nil || ro.res.Error != "" {
 		errs := ""
 		if ro.res != nil {
